@@ -166,6 +166,13 @@ def run_scenarios(rep, tier, seed, tag, make_scenario, oracle, n_quick, n_thorou
             scenarios.append((f"gen{i}", scn))
         for label, scn in scenarios:
             impl_obs, root = world.run_impl(scn, scratch, snap=snap)
+            hung = [k for k, o in enumerate(impl_obs) if list(o.get("outcome") or []) == ["abort", "Hang"]]
+            if hung:
+                # the tool did not come back from a command: nothing the property promises can have happened
+                rep.case(json.dumps(scn, sort_keys=True), nontrivial=True)
+                rep.violate("command-does-not-return", {"scenario": scn, "step": hung[0]}, "an exit code", ["abort", "Hang"],
+                            f"step {hung[0]} ({scn['steps'][hung[0]]['op']}) did not return within the time limit")
+                continue
             replay = Replay(scn).build(impl_obs)
             for st, o in zip(scn["steps"], impl_obs):
                 rep.count("step." + st["op"])
